@@ -501,12 +501,29 @@ def plan_defaults(doc: dict, man: dict, args: dict) -> list:
             if p["default"] is not None and p["name"] in mo["properties"]:
                 ps = docs.narrowest(mo["properties"][p["name"]], comps)
                 dv = ps.get("default") if isinstance(ps, dict) else None
-                if isinstance(dv, str) and docs.resolve(ps, comps).get("type") == "string" and not docs.resolve(ps, comps).get("format") and "enum" not in docs.resolve(ps, comps):
+                rs_ = docs.resolve(ps, comps) if isinstance(ps, dict) else {}
+                t_ = rs_.get("type")
+                if isinstance(t_, list):
+                    t_ = next((x_ for x_ in t_ if x_ != "null"), None)
+                if isinstance(dv, str) and t_ == "string" and not rs_.get("format") and "enum" not in rs_:
                     exp[p["name"]] = dv
                 elif isinstance(dv, str) and ps == {"default": dv}:
                     exp[p["name"]] = dv
+                elif args.get("typed_defaults") and dv is not None and not isinstance(dv, (list, dict)):
+                    # valid defaults in canonical spelling (the random generator's): the omitted argument encodes as the default
+                    if "enum" in rs_:
+                        if dv in rs_["enum"]:
+                            exp[p["name"]] = dv
+                    elif (t_ == "string" and isinstance(dv, str)) or (t_ == "integer" and isinstance(dv, int) and not isinstance(dv, bool)) or \
+                            (t_ == "number" and isinstance(dv, (int, float)) and not isinstance(dv, bool)) or (t_ == "boolean" and isinstance(dv, bool)):
+                        exp[p["name"]] = dv
         acts.append({"a": "construct", "cls": ent["cls"], "kwargs": kwargs, "x": {"ref": ref, "expect_defaults": exp, "required_values": {p["name"]: v[p["name"]] for p in m["props"] if p["required"] and p["default"] is None}}})
     return acts
+
+
+def plan_c13rand(doc, man, args):
+    a = dict(args, typed_defaults=True)
+    return plan_defaults(doc, man, a) + plan_ops(doc, man, dict(a, calls_per_op=2))
 
 
 def plan_c05(doc, man, args):
@@ -693,4 +710,4 @@ def plan_import(doc, man, args):
     return [{"a": "import_all"}]
 
 
-PLANS = {"models": plan_models, "ops": plan_ops, "import": plan_import, "models_given": plan_models_given, "defaults": plan_defaults, "c05": plan_c05, "c14": plan_c14, "c13": plan_c13, "c10": plan_c10, "c15": plan_c15, "c18_ops": plan_c18_ops, "c11": plan_c11}
+PLANS = {"c13rand": plan_c13rand, "models": plan_models, "ops": plan_ops, "import": plan_import, "models_given": plan_models_given, "defaults": plan_defaults, "c05": plan_c05, "c14": plan_c14, "c13": plan_c13, "c10": plan_c10, "c15": plan_c15, "c18_ops": plan_c18_ops, "c11": plan_c11}
